@@ -83,7 +83,8 @@ CHECKS = {
              "time-area fractions summing to 1 add up to the flux; queue arcs deliver or bounce exactly the requests of "
              "the direction whose remaining time is 0 (for any far end) and close-out lowers every remaining time by "
              "one. A decaying queue tank keeps the timetable of the plain one (volume erasure theorem, after the repair of "
-             "DecayQueueTank._end_timestep); time-area pushes of Sewer / QueueGroundwater keep the contents declared. Tie: exact "
+             "DecayQueueTank._end_timestep); time-area pushes of Sewer / QueueGroundwater keep the contents declared and land every "
+             "fraction in the bucket of its own delay (TimeAreaArrival.v). Tie: exact "
              "correspondence (incl. family tarea: Sewer and QueueGroundwater with overrides on used nodes) + an independent "
              "delay-schedule reference on the implementation (queue tanks, and a real Sewer fed by tagged pushes over several timesteps).",
         design="5/C09", tech="Coq proof (induction over close-outs and request lists) over hand-written models + exact-rational correspondence",
